@@ -11,7 +11,7 @@ import (
 
 // C19: the bookmark database behaves as a persistent name-to-file map.
 
-var bkNames = []string{"", "@", "work", "@work", "@@work", "default", "@default", "Ünï", "@日本", "a b", "@a b", "q\"uote", "back\\slash", "x@y", "@x@y", "tab\tname", "ü", "z", "A", "a", " sep", "new\nline"}
+var bkNames = []string{"", "@", "work", "@work", "@@work", "default", "@default", "Ünï", "@日本", "a b", "@a b", "q\"uote", "back\\slash", "x@y", "@x@y", "tab\tname", "ü", "z", "A", "a", " sep", "new\nline", "work@", "@work@", "x@"}
 
 type bkOp struct {
 	Kind string `json:"kind"` // set, unset, clear, list, info, resolve
